@@ -165,7 +165,8 @@ def eq_record(inp):
 
 
 def sig(v, dtype='u2'):
-    return np.array([v], dtype=dtype)
+    """a signature identified by its first element v, of length 1 + v % 3 (so that same-count mutations change sizes)"""
+    return np.array([v + 1000 * t for t in range(1 + v % 3)], dtype=dtype)
 
 
 def apply_op(sl, o):
@@ -210,6 +211,13 @@ def mut_record(init, ops):
         except Exception as e:
             err = type(e).__name__
         meta_ok = sl.kmerspec == ks and sl.dtype == np.dtype('u2') and len(sl) == len(state_of(sl))
+        # after every step the collection equals a freshly built one with the same content (both ways), its sizes are those of its
+        # signatures, and it differs from one with another first signature
+        now = state_of(sl)
+        fresh = SignatureList([sig(v) for v in now], ks, dtype=np.dtype('u2'))
+        other = SignatureList([sig(v + 1) for v in now[:1]] + [sig(v) for v in now[1:]], ks, dtype=np.dtype('u2'))
+        meta_ok = meta_ok and bool(sl == fresh) and bool(fresh == sl) and not bool(sl != fresh) \
+            and [int(x) for x in sl.sizes()] == [1 + v % 3 for v in now] and (not now or (bool(sl != other) and not bool(sl == other)))
         r['steps'].append(dict(o=o, err=err, after=state_of(sl), meta_ok=bool(meta_ok)))
     return r
 
